@@ -33,6 +33,7 @@ type Facts struct {
 	Funcs         map[string]*FuncFacts  `json:"funcs"`         // F4-F8 per function (module-local)
 	ExternalCalls []ExtCall              `json:"external_calls"`
 	Sites         []*Site                `json:"sites"`          // F8
+	Excluded      []ExcludedReg          `json:"excluded_registrations"` // F1: registration calls in files outside the default build
 	Errors        []string               `json:"errors"`
 	Stats         map[string]int         `json:"stats"`
 }
@@ -137,6 +138,7 @@ func main() {
 	}
 
 	census(pkgs)
+	excludedRegistrations(pkgs, dir)
 	blankImports(byPath[modPath], dir)
 	tables(byPath)
 	analyseFuncs(pkgs)
